@@ -62,7 +62,7 @@ def run(pid, tier):
     if pid == 'C01':
         o.assumptions = [
             'ziggurat part (StandardNormal, Exp1): tables against the structural equations (ZigTables.tla) and executions against the ZIGNOR automaton (TraceZig.tla: layer, sign, word count, result region, tail sign), exactly as for C06',
-            'inverse-CDF samplers (Cauchy, Pareto, Weibull, Gumbel, Frechet, Triangular): the LAW is decided at the anchors of spec/QuantileTable.tla (22 dyadic parameter points x 9 probabilities '
+            'inverse-CDF samplers (Cauchy, Pareto, Weibull, Gumbel, Frechet, Triangular): the LAW is decided at the anchors of spec/QuantileTable.tla (42 dyadic parameter points x 9 probabilities '
             '2^-20 .. 1-2^-20 x f32/f64) as an exact ticket count against the documented CDF bracketed at x(1 -/+ 2^-20), resolution two steps of the uniform draw; the table itself is mpmath output '
             '(tools/gen_quantile_table.py, 60 digits) whose order/median sanity TLC checks; f64 counts rest on monotonicity inside each half of the word range, checked on ~150 sorted words per half',
             'ONLY the composition layer is decided for the remaining families: ChiSquared, StudentT, FisherF, Pert, Exp, Gamma(shape <= 1), Normal(0,1) are the documented functions of the crate\'s own primitives '
